@@ -13,7 +13,7 @@ from .. import graph_hist as H
 from .. import histprops as HP
 
 LEVEL = 'proof'
-NEEDS = ['Base', 'Names', 'Graph', 'GraphObs', 'GraphTS', 'GraphInv', 'Skeleton', 'SkeletonProofs']
+NEEDS = ['Base', 'Names', 'Graph', 'GraphObs', 'GraphTS', 'GraphInv', 'Matrix', 'Skeleton', 'SkeletonProofs', 'Closed', 'CorrMatrix']
 MEMBERS_SEEN = set()
 
 
@@ -113,6 +113,15 @@ def check(run, tier, seed):
                                  'Skeleton member is compared with the current graph (nodes, undirected edges, symmetric adjacency, '
                                  'orientation-blind queries) and every 4th step the skeleton is rebuilt from its dict / matrix / networkx / GML form.')
     run.coverage['skeleton_members_exercised'] = sorted(MEMBERS_SEEN)
+    # every Skeleton member against the Coq model of the skeleton views (Skeleton.v), the skeleton object taken before the history
+    from . import c08
+    rng = random.Random(seed + 77)
+    cases = c08.state_cases(rng, 200 if tier == 'quick' else 3000)
+    out = c08.run_mcases(cases, tag='sk')
+    div = [i for i, o in enumerate(out) if not o & 2]
+    run.coverage['skeleton_states_compared_with_model'] = len(cases)
+    run.oblige(f'correspondence: all skeleton views on {len(cases)} graph states (skeleton taken before the history) == Skeleton.v model', not div,
+               '' if not div else f'first divergence: {cases[div[0]]["kind"]} {cases[div[0]]["ops"]!r}'[:480])
 
 
 def replay(run, path):
